@@ -44,9 +44,9 @@ def to_yaml(cfg):
 GO_IDENTS = ["NewA", "NewB", "MakeC", "Build", "Provide", "New"]
 TYPES = ["T", "Srv", "Handler", "Box"]
 PKGS = ["example.com/lib", "example.com/lib/sub", "example.com/other", "gv.test/fix/alpha", "gv.test/fix/beta-pkg", "gv.test/fix/x.y"]
-ALIASES = ["lib", "other", "al", "al.pha", "be-ta", "f", "fo", "foo"]
+ALIASES = ["lib", "other", "al", "al.pha", "be-ta", "f", "fo", "foo", "fmt", "os", "github.com", "errors", "context", "strconv", "reflect"]
 
-LITERALS = [0, 1, -7, 42, True, False, None, 1.5, -0.25, "", "plain", "two words", "x.y", "100%%", Raw("18446744073709551615"),
+LITERALS = [0, 1, -7, 42, True, False, None, 1.5, -0.25, "", "plain", "two words", "x.y", "100%%", "1", "42", "true", "1.5", "<nil>", "nil", "-7", Raw("18446744073709551615"),
             Raw("9223372036854775807"), Raw("-9223372036854775808"), Raw("1e3"), Raw("0x1F"), Raw("~")]
 NONFINITE = [Raw(".inf"), Raw("-.inf"), Raw(".nan")]
 NONPRIM = [[1, 2], {"a": 1}, Raw("2001-12-14t21:59:43.10-05:00"), [[]], {}]
@@ -90,11 +90,14 @@ class Gen:
     def value_expr(self):
         r = self.r
         imp = self.import_ref()
-        forms = ["Value", "&Value", "%sValue" % imp, "%sGlobalVar.Field" % imp, "&%sGlobalVar.Field" % imp,
+        # a dotted selector after an import needs the quoted form (otherwise the last dot-separated word before the
+        # final one is read as part of the package path)
+        qimp = self.import_ref(quoted_only=True)
+        forms = ["Value", "&Value", "%sValue" % imp, "%sGlobalVar.Field" % qimp, "&%sGlobalVar.Field" % qimp,
                  "MyStruct{}", "&MyStruct{}", "%sMyStruct{}" % imp, "&%sMyStruct{}" % imp]
         return r.choice(forms)
 
-    def import_ref(self):
+    def import_ref(self, quoted_only=False):
         """'' or an import followed by '.' in one of the documented spellings"""
         r = self.r
         k = r.random()
@@ -103,15 +106,16 @@ class Gen:
         pkg = r.choice(PKGS)
         if k < 0.45:
             return '"%s".' % pkg
-        if k < 0.6 and "." not in pkg.split("/")[-1]:
+        if k < 0.6 and "." not in pkg.split("/")[-1] and not quoted_only:
             return pkg + "."
         if k < 0.7:
             return '".".'
         if self.aliases:
             a = r.choice(sorted(self.aliases))
-            if r.random() < 0.3:
-                return a + "/sub."
-            return a + "."
+            sub = "/sub" if r.random() < 0.3 else ""
+            if quoted_only or "." in a or r.random() < 0.3:
+                return '"%s%s".' % (a, sub)
+            return a + sub + "."
         return '"%s".' % pkg
 
     def arg(self, params=None, services=None, allow_service=True):
